@@ -1,6 +1,8 @@
 package types
 
 import (
+	"errors"
+
 	"cosmossdk.io/math"
 	"github.com/ethereum/go-ethereum/beacon/engine"
 	"github.com/ethereum/go-ethereum/common"
@@ -70,6 +72,24 @@ func PayloadToExecutableData(data *ExecutionPayload) *engine.ExecutableData {
 	}
 
 	return res
+}
+
+// Validate checks the length of the hash fields that are recorded without being compared with
+// anything in the state. The conversion to the engine's types crops and pads them, so with any
+// other length the engine validates another value than the one that is recorded (and that the
+// next block's parent hash is compared with).
+func (payload *ExecutionPayload) Validate() error {
+	switch {
+	case len(payload.BlockHash) != common.HashLength:
+		return errors.New("invalid block hash length")
+	case len(payload.StateRoot) != common.HashLength:
+		return errors.New("invalid state root length")
+	case len(payload.ReceiptsRoot) != common.HashLength:
+		return errors.New("invalid receipts root length")
+	case len(payload.PrevRandao) != common.HashLength:
+		return errors.New("invalid prev randao length")
+	}
+	return nil
 }
 
 func (payload *ExecutionPayload) LogKeyVals() []any {
